@@ -1,1 +1,3 @@
 pub mod c20;
+pub mod codec;
+pub mod c06;
